@@ -72,15 +72,15 @@ Proof. cbv zeta. repeat split; vm_compute; reflexivity. Qed.
      1. EffectsConfig.parse_paths: userDictPath / fileDictPath go through dict_setting ("" -> default: the
         `!path.is_empty()` guard), statsPath through stats_setting (no guard), all three through try_resolve, each into
         its own field;
-     2. EffectsConfig.cfg_user_plan = save_plan without a file-name check (FC10b; `true` here means /repo took the fix
-        and cfg_user_plan_fixed is THE model);
+     2. EffectsSave.save_dict_plan has the file-name check, placed before create_dir_all (a91f3ee, the fix of FC10b;
+        `false` here would be the old code = the *_old definitions);
      3. EffectsSave.file_dict_name / file_dict_plan: '%' after every component, RootDir skipped, empty name refused;
      4. C10Cli.cli_file_dict_name: the same but the empty name is NOT refused (join "" = the directory itself);
      5. C10Cli.cli_lint_reads: the two load_dict calls of `lint`, in this order. *)
 Definition path_code_as_modelled : Prop :=
   config_path_blocks = [("userDictPath", "user_dict_path", true, "try_resolve"); ("fileDictPath", "file_dict_path", true, "try_resolve");
                         ("statsPath", "stats_path", false, "try_resolve")]%string /\
-  save_dict_refuses_no_file_name = false /\
+  save_dict_refuses_no_file_name = true /\
   ls_file_dict_name_shape = ("%"%string, true, true) /\ cli_file_dict_name_shape = ("%"%string, true, false) /\
   cli_lint_loads = ["&user_dict_path"; "file_dict_path.join(file_dict_name(&file))"]%string /\
   bytes_of_string "%" = [percent].
